@@ -35,28 +35,29 @@ var structSig = map[string][]string{
 
 // fieldType: type of each anchored field on the confirmed tree.
 var fieldType = map[string]string{
-	"bus/net.endPoint.stream":                 "Stream",
-	"bus/net.endPoint.handlers":               "[]*Handler",
-	"bus/net.endPoint.handlersMutex":          "sync.Mutex",
-	"bus/net.Handler.filter":                  "Filter",
-	"bus/net.Handler.consumer":                "chan<- *Message",
-	"bus/net.Handler.closer":                  "Closer",
-	"bus/directory.serviceDirectory.lastID":   "uint32",
-	"bus/directory.serviceDirectory.mutex":    "sync.Mutex",
-	"bus.signalHandler.signals":               "[]signalUser",
-	"bus.signalHandler.signalsMutex":          "sync.RWMutex",
-	"bus.signalUser.userID":                   "uint64",
-	"bus.serviceImpl.objects":                 "map[uint32]Actor",
-	"bus.serviceImpl.boxes":                   "map[uint32]MailBox",
-	"bus.Router.services":                     "map[uint32]ServiceReceiver",
-	"bus.client.state":                        "map[string]int",
-	"bus.channel.capability":                  "CapabilityMap",
-	"bus.objectImpl.properties":               "map[string]value.Value",
-	"bus.clientService.objectsHandlers":       "map[uint32]int",
-	"bus/session.Session.poll":                "map[string]bus.Client",
-	"bus/session.Session.serviceList":         "[]services.ServiceInfo",
-	"type/value.OpaqueValue.sig":              "string",
-	"type/value.OpaqueValue.data":             "[]byte",
+	"bus/net.endPoint.stream":               "Stream",
+	"bus/net.endPoint.handlers":             "[]*Handler",
+	"bus/net.endPoint.handlersMutex":        "sync.Mutex",
+	"bus/net.Handler.filter":                "Filter",
+	"bus/net.Handler.consumer":              "chan<- *Message",
+	"bus/net.Handler.closer":                "Closer",
+	"bus/directory.serviceDirectory.lastID": "uint32",
+	"bus/directory.serviceDirectory.mutex":  "sync.Mutex",
+	"bus.signalHandler.signals":             "[]signalUser",
+	"bus.signalHandler.signalsMutex":        "sync.RWMutex",
+	"bus.signalUser.userID":                 "uint64",
+	"bus.serviceImpl.objects":               "map[uint32]Actor",
+	"bus.serviceImpl.boxes":                 "map[uint32]MailBox",
+	"bus.Router.services":                   "map[uint32]ServiceReceiver",
+	"bus.client.state":                      "map[string]int",
+	"bus.client.messageID":                  "uint32",
+	"bus.channel.capability":                "CapabilityMap",
+	"bus.objectImpl.properties":             "map[string]value.Value",
+	"bus.clientService.objectsHandlers":     "map[uint32]int",
+	"bus/session.Session.poll":              "map[string]bus.Client",
+	"bus/session.Session.serviceList":       "[]services.ServiceInfo",
+	"type/value.OpaqueValue.sig":            "string",
+	"type/value.OpaqueValue.data":           "[]byte",
 }
 
 // strct resolves a struct type (rename-tolerant).
@@ -71,6 +72,49 @@ func fld(c *core.Ctx, rel, typ, name string) *types.Var {
 		return nil
 	}
 	return c.FieldT(st, name, fieldType[rel+"."+typ+"."+name])
+}
+
+// fldNested resolves a field like fld, and also finds it one level down: in a
+// small struct of the same package that the owner now holds (the state and its
+// mutex moved together into a type of their own).  Returns the struct that
+// declares the field.
+func fldNested(c *core.Ctx, rel, typ, name, typeString string) (*types.Named, *types.Var) {
+	st := strct(c, rel, typ)
+	if st == nil {
+		return nil, nil
+	}
+	if typeString == "" {
+		typeString = fieldType[rel+"."+typ+"."+name]
+	}
+	if f := c.FieldT(st, name, typeString); f != nil {
+		return st, f
+	}
+	s, ok := st.Underlying().(*types.Struct)
+	if !ok {
+		return nil, nil
+	}
+	var owner *types.Named
+	var found *types.Var
+	for i := 0; i < s.NumFields(); i++ {
+		t := s.Field(i).Type()
+		if p, ok := t.(*types.Pointer); ok {
+			t = p.Elem()
+		}
+		sub, ok := t.(*types.Named)
+		if !ok || sub.Obj().Pkg() != st.Obj().Pkg() {
+			continue
+		}
+		if _, isStruct := sub.Underlying().(*types.Struct); !isStruct {
+			continue
+		}
+		if f := c.FieldT(sub, name, typeString); f != nil {
+			if found != nil {
+				return nil, nil // ambiguous
+			}
+			owner, found = sub, f
+		}
+	}
+	return owner, found
 }
 
 // mutexFields lists the sync.Mutex / sync.RWMutex fields of a struct
@@ -146,15 +190,8 @@ func methodsCalling(pred func(ssa.CallInstruction) bool) func(*ssa.Function) boo
 }
 
 // clientMessageID: the uint32 counter field of bus.client (the only uint32 field).
-func clientMessageID(c *core.Ctx) *types.Var {
-	st := strct(c, "bus", "client")
-	if st == nil {
-		return nil
-	}
-	if f := c.FieldT(st, "messageID", "uint32"); f != nil {
-		return f
-	}
-	return nil
+func clientMessageID(c *core.Ctx) (*types.Named, *types.Var) {
+	return fldNested(c, "bus", "client", "messageID", "uint32")
 }
 
 // clientServiceNextID: the counter of clientService: the uint32 field that is
